@@ -583,6 +583,9 @@ def check_L10(ctx, rep):
     if check_bound_tests(cr, rep) < 3:
         from core import Broken
         raise Broken('L10.B: fewer than 3 comparisons against a const generic bound found (BoundedSet expected)')
+    if check_partial_cmp_propagation(cr, rep) < 20:
+        from core import Broken
+        raise Broken('L10.PO: fewer than 20 intermediate comparisons found in the hand-written partial_cmp impls of the lattice module')
     if check_case_table(cr, rep) < 64:
         from core import Broken
         raise Broken('L10.C: fewer than 4 x 16 case-table entries of ConstPropagation decided')
@@ -922,3 +925,102 @@ def check_case_table(cr, rep):
             raise Broken('L10.C: %s: shape not recognised (%s)' % (path, ex))
         rep.inst('L10.C', '%s: 16 constructor pairs decided against the flat order' % path)
     return n
+
+
+# ------------------------------------------------------------------ L10.PO  incomparable components
+
+def check_partial_cmp_propagation(cr, rep):
+    """product-style orders: inside a hand-written `partial_cmp` of the lattice module every intermediate comparison that can be
+    undefined (a component's `partial_cmp`, `combine_orderings`: anything of type Option<Ordering>) hands its `None` on - by `?`,
+    by a `None => return None` / `None => None` arm, or by being the result itself. An `if let Some(ord) = .. { .. }` without an
+    else that yields None *skips* an incomparable component: values that differ in it compare Equal / Less."""
+    n = 0
+    for path, b in sorted(cr.bodies.items()):
+        if b['name'] != 'partial_cmp' or not (b.get('trait_of') or '').endswith('cmp::PartialOrd') or 'lattice::' not in path:
+            continue
+        rep.functions.add(path)
+        defs = {}
+        for x, _ in walk(b['tree']):
+            if x.get('k') == 'let' and 'i' in x and x['p'].get('k') == 'bind':
+                defs[x['p']['id']] = x['i']
+        opt_calls = []
+        for x, parents in walk(b['tree']):
+            if x.get('k') in ('call', 'mcall') and (cr.ty(x) or '').replace(' ', '') == 'std::option::Option<std::cmp::Ordering>':
+                opt_calls.append((x, parents))
+        for x, parents in opt_calls:
+            # what consumes the value: skip transparent wrappers
+            verdict = None
+            cur = x
+            for p_ in reversed(parents):
+                k = p_.get('k')
+                if k in ('block',) and p_.get('e') is cur or (k == 'block' and strip(p_).get('e') is cur):
+                    cur = p_; continue
+                if k == 'match' and strip(p_['e']) is cur:
+                    if p_.get('src') in ('try', '?') or (p_.get('src') or '').lower().startswith('try'):
+                        verdict = 'propagated by ?'
+                    else:
+                        none_arm = [a for a in p_['arms'] if ((a['p'].get('path') or {}).get('d') or '').endswith('::None')]
+                        if none_arm and _yields_none(none_arm[0]['b']):
+                            verdict = 'None arm yields None'
+                        elif none_arm:
+                            verdict = 'BAD: the None arm does not yield None'
+                        else:
+                            verdict = 'BAD: no None arm'
+                    break
+                if k == 'let' and 'ss' not in p_ and p_.get('i') is cur and p_.get('p', {}).get('k') == 'bind' and not any(q.get('k') == 'if' and strip(q['c']) is p_ for q in parents):
+                    # bound to a local: look at the uses of that local
+                    lid = p_['p']['id']
+                    uses = [(y, ps) for y, ps in walk(b['tree']) if y.get('k') == 'path' and y.get('res') == 'local' and y.get('id') == lid]
+                    ok_use = False
+                    for y, ps in uses:
+                        par = ps[-1] if ps else {}
+                        if par.get('k') == 'match' and strip(par['e']) is y:
+                            none_arm = [a for a in par['arms'] if ((a['p'].get('path') or {}).get('d') or '').endswith('::None')]
+                            if par.get('src') in ('try', '?') or (none_arm and _yields_none(none_arm[0]['b'])):
+                                ok_use = True
+                    verdict = 'bound to a local whose match hands None on' if ok_use else 'BAD: bound to a local that is not matched with a None arm yielding None'
+                    break
+                if k == 'let' and p_.get('i') is cur and any(q.get('k') == 'if' and strip(q['c']) is p_ for q in parents):
+                    iff = [q for q in parents if q.get('k') == 'if' and strip(q['c']) is p_][0]
+                    if iff.get('el') is not None and _yields_none(iff['el']):
+                        verdict = 'if let .. else yields None'
+                    else:
+                        verdict = 'BAD: `if let Some(..)` without an else that yields None - an undefined comparison is skipped'
+                    break
+                if k in ('semi', 'expr'):
+                    cur = p_; continue
+                if k == 'ret':
+                    verdict = 'returned'; break
+                break
+            if verdict is None:
+                # tail position of the function / closure = the result itself
+                t = strip(b['tree'])
+                tail = t.get('e') if t.get('k') == 'block' else t
+                if tail is not None and (strip(tail) is x):
+                    verdict = 'is the result'
+                else:
+                    verdict = 'other use'
+            n += 1
+            rep.inst('L10.PO', '%s: %s: %s' % (path, cname(callee(x)).split('::')[-1] if callee(x) else '?', verdict))
+            if verdict.startswith('BAD'):
+                rep.viol('L10', path, 'incomparable-skipped',
+                         'an intermediate comparison of type Option<Ordering> does not hand its None on (%s): values that are incomparable in one '
+                         'component compare as if that component were equal' % verdict[5:], loc=cr.loc(x))
+    return n
+
+
+def _yields_none(e):
+    e = strip(e)
+    k = e.get('k')
+    if k == 'ret':
+        return 'e' in e and _yields_none(e['e'])
+    if k == 'path':
+        return (e.get('d') or '').endswith('::None')
+    if k == 'block':
+        last = e.get('e')
+        if last is not None:
+            return _yields_none(last)
+        if e.get('ss'):
+            s_ = e['ss'][-1]
+            return s_.get('k') in ('semi', 'expr') and _yields_none(s_['e'])
+    return False
